@@ -49,7 +49,7 @@ def _plan(quick, seed):
         # <= 3 (thorough 5) runes over one rune per (class, width), in the contexts, plus seeded random strings of <= 10
         ("phraseP", "Parser_phraseP2.cfg" if quick else "Parser_phraseP3.cfg", dict(workers=nw), [], True),
         ("phraseQ", "Parser_phraseQ3.cfg" if quick else "Parser_phraseQ5.cfg", dict(workers=nw), [], True),
-        ("randphrase", "Parser_randphrase.cfg", dict(simulate="num=%d" % (15 if quick else 150), depth=11, **sim), [], True),
+        ("randphrase", "Parser_randphrase.cfg", dict(simulate="num=%d" % (8 if quick else 60), depth=11, **sim), [], True),
         ("walkA", "Parser_walkA3q.cfg" if quick else "Parser_walkA4.cfg", dict(workers=nw), [], True),
         ("walkB", "Parser_walkB3q.cfg" if quick else "Parser_walkB4.cfg", dict(workers=nw), [], True),
         ("randwalkA", "Parser_randwalkA.cfg", dict(simulate="num=%d" % (40 if quick else 400), depth=17, **sim), [], True),
